@@ -358,6 +358,11 @@ func c04DeepScopes() []string {
 
 func c04Handwritten() []string {
 	return []string{
+		// a call's value used directly: property, element and further calls after an argument list, fluent chains
+		Lines(Fun("make", "n", " "+Fun("inc", "", " n = n + 1; "+Ret("n")+" ")+" "+Ret("{inc: inc, start: n}")+" "), Print("make(10).inc()"), Print("make(5).start"), Fun("dbl", "v", " "+Ret("v * 2")+" "), Fun("table", "", " "+Ret("[make, dbl]")+" "), Print("table()[1](5)"), Print("table()[0](7).inc()"),
+			Fun("pair", "a, b", " "+Ret("[a, [b, a]]")+" "), Print("pair(1, 2)[1]"), Print("pair(1, 2)[1][0]"), Fun("acc", "t", " "+Fun("add", "v", " "+Ret("acc(t + v)")+" ")+" "+Ret("{add: add, total: t}")+" "), Print("acc(0).add(1).add(2).total"), Var("c", "make(1)"), "c.inc();", Print("c.inc() + make(100).inc()")),
+		Lines(Fun("loopsum", "n", " "+Var("s", "0")+" "+For(Var("i", "1"), "i <= n", "i = i + 1", "{ "+If("i % 2 == 0", "{ "+Continue()+" }")+" s = s + i; }")+" "+Ret("s")+" "), Print("loopsum(5)"), Print("loopsum(6)"), Fun("cnt", "xs", " "+Var("k", "0")+" "+Var("i", "0")+" "+While("i < "+BI("len", "xs"), "{ i = i + 1; "+If("xs[i - 1] < 0", "{ "+Continue()+" }")+" k = k + 1; }")+" "+Ret("k")+" "), Print("cnt([3, 4, -1])"), Print("cnt([3, -4, 1])"),
+			Fun("outer", "", " "+Var("t", "0")+" "+For(Var("a", "0"), "a < 3", "a = a + 1", "{ "+For(Var("b", "0"), "b < 2", "b = b + 1", "{ "+If("b == 1", "{ "+Continue()+" }")+" t = t + 1; }")+" t = t + 10; }")+" "+Ret("t")+" "), Print("outer()")),
 		// closures that end by calling a sibling instance of themselves (same declaration, different captured state)
 		Lines(Fun("mk", "tag, bonus", " "+Var("peer", "nil")+" "+Fun("setPeer", "p", " peer = p; ")+" "+Fun("hit", "n", " "+If("n > 2", "{ "+Ret(`tag + ":" + (n + bonus)`)+" }")+" "+Ret("peer(n + 1)")+" ")+" "+Ret("{hit: hit, setPeer: setPeer}")+" "),
 			Var("a", `mk("a", 10)`), Var("b", `mk("b", 20)`), "a.setPeer(b.hit);", "b.setPeer(a.hit);", Print("a.hit(0)"), Print("b.hit(0)"), Print("a.hit(2)"), Print("a.hit(3)")),
